@@ -739,6 +739,10 @@ def dde_models():
     d4 = dict(name="d4", eqs=[["x", "de", ["+", ["+", ["neg", V("x")], ["*", N(0.5), ["past", "x", 0.3]]], ["*", N(0.25), ["past", "x", 0.8]]]]],
               vars={"x": ["output", 0.6]})
     out.append(("H4-one-variable-two-delays", dict(delays=[0.3, 0.8]), model([d4], {"p": dict(ops=["d4"])})))
+    # two DIFFERENT delays less than one step apart (they round to the same multiple of every step size used here): each keeps its own lag
+    d20 = dict(name="d20", eqs=[["x", "de", ["+", ["+", ["neg", V("x")], ["*", N(0.5), ["past", "x", 0.3]]], ["*", N(0.25), ["past", "x", 0.3004]]]]],
+               vars={"x": ["output", 0.6]})
+    out.append(("H20-two-delays-less-than-a-step-apart", dict(delays=[0.3, 0.3004]), model([d20], {"p": dict(ops=["d20"])})))
     d8 = dict(name="d8", eqs=[["x", "de", ["+", ["neg", V("x")], ["*", N(0.5), ["past", "x", 0.3]]]],
                               ["z", "de", ["+", ["neg", V("z")], ["*", N(1.5), ["past", "x", 0.7]]]]],
               vars={"x": ["output", 0.3], "z": ["state", -0.2]})
